@@ -13,6 +13,9 @@
 #include "private.h"
 #include "tuklib_integer.h"
 
+#if defined(TUKAANI_PROJECT_XZ_VERIF) && !defined(VERIF_CODER_PASSTHRU_LOOP_CONTRACT)
+#	define VERIF_CODER_PASSTHRU_LOOP_CONTRACT
+#endif
 #if defined(TUKAANI_PROJECT_XZ_VERIF) && !defined(VERIF_CODER_NORMAL_LOOP_CONTRACT)
 // Verification hook: /verif's harness defines this to a CBMC loop contract.
 #	define VERIF_CODER_NORMAL_LOOP_CONTRACT
@@ -1367,7 +1370,11 @@ coder_normal(file_pair *pair)
 static bool
 coder_passthru(file_pair *pair)
 {
+#ifdef TUKAANI_PROJECT_XZ_VERIF
+	while (strm.avail_in != 0) VERIF_CODER_PASSTHRU_LOOP_CONTRACT {
+#else
 	while (strm.avail_in != 0) {
+#endif
 		if (user_abort)
 			return false;
 
